@@ -148,8 +148,7 @@ def make(freq, loosen, reach):
         c.inv("lfps_burst_seen_only_after_lfps",
               z3.Implies(z3.And(fsm.is_("Polling.LFPS"), reg("lfps_burst_seen")), lfps_done))
         cyc = ts.sig("cycles_in_state")
-        for s, t in T.items():
-            c.inv(f"timer_{slug(s)}", z3.Implies(fsm.is_(s), z3.And(zx(cyc, AW) == age, z3.ULE(age, t))))
+        c.inv("timers", z3.And(*[z3.Implies(fsm.is_(s), z3.And(zx(cyc, AW) == age, z3.ULE(age, t))) for s, t in T.items()]))
         # state => history flag (table found with Houdini over all state x flag candidates, then written out)
         EXIT_IDLE = ("Polling.Configuration.Exit", "Polling.Idle", "Recovery.Configuration.Exit", "Recovery.Idle",
                      "Hot Reset.Exit", "Loopback", "U0")
